@@ -2,7 +2,7 @@
 import tower_common
 from props import c03
 
-TARGETS = ["theories/Properties/C09.v"]
+TARGETS = ["theories/Properties/C09.v", "theories/Properties/C09_restart.v"]
 MON = {"C09"}
 KNOWN = {}
 
